@@ -79,8 +79,19 @@ func replayParse(raw json.RawMessage) (string, string) {
 	return evalParse(&c)
 }
 
+// respell changes the unused trailing bits of the last base64url character (where the encoding has any) or else
+// appends a line feed: the string still decodes to the same bytes.
+func respell(mh string) string {
+	const alphabet = "ABCDEFGHIJKLMNOPQRSTUVWXYZabcdefghijklmnopqrstuvwxyz0123456789-_"
+	if len(mh)%4 != 0 {
+		i := strings.IndexByte(alphabet, mh[len(mh)-1])
+		return mh[:len(mh)-1] + string(alphabet[i^1])
+	}
+	return mh + "\n"
+}
+
 func TestIntakePairings(t *testing.T) {
-	ev.Rule(chkParse, "exhaustive: for each of the 5 key types x request hash algorithm {sha2-256, sha2-512} (protocol enabling both) x type: update / recover with next commitment (for recover: next recovery commitment and, separately, next update commitment) in {commitment of the revealed key under sha2-256, under sha2-512, commitment of another key}; create / recover with (update, recovery) commitments equal or different; optional nonce and kid; oracle: Parse rejects exactly the equal pairings and accepts the distinct controls; non-trivial = an equal pairing")
+	ev.Rule(chkParse, "exhaustive: for each of the 5 key types x request hash algorithm {sha2-256, sha2-512} (protocol enabling both) x type: update / recover with next commitment (for recover: next recovery commitment and, separately, next update commitment) in {commitment of the revealed key under sha2-256, under sha2-512, the same in another base64url spelling, commitment of another key}; create / recover with (update, recovery) commitments equal or different; optional nonce and kid; oracle: Parse rejects exactly the equal pairings and accepts the distinct controls; non-trivial = an equal pairing")
 	item := 0
 	for _, kt := range keys.AllTypes {
 		for _, code := range []uint64{asm.SHA256, asm.SHA512} {
@@ -109,6 +120,7 @@ func TestIntakePairings(t *testing.T) {
 					{"next=commit256(revealed)", asm.Commit(k(1), asm.SHA256), true},
 					{"next=commit512(revealed)", asm.Commit(k(1), asm.SHA512), true},
 					{"next=commit(other)", asm.Commit(k(2), code), false},
+					{"next=commit(revealed) in another base64url spelling", respell(asm.Commit(k(1), code)), true},
 				} {
 					add(hist.NewSigned(hist.SignedSpec{Name: "U", Type: "update", Suffix: s, Code: code, Reveal: k(1), Markers: mk, Opt: hist.Opt{NextUpdate: pr.next}}), "update", pr.name, pr.reject)
 				}
@@ -117,6 +129,7 @@ func TestIntakePairings(t *testing.T) {
 					{"next-recovery=commit256(revealed)", asm.Commit(k(0), asm.SHA256), true},
 					{"next-recovery=commit512(revealed)", asm.Commit(k(0), asm.SHA512), true},
 					{"next-recovery=commit(other)", asm.Commit(k(2), code), false},
+					{"next-recovery=commit(revealed) in another base64url spelling", respell(asm.Commit(k(0), code)), true},
 				} {
 					add(hist.NewSigned(hist.SignedSpec{Name: "R", Type: "recover", Suffix: s, Code: code, Reveal: k(0), NextUpd: k(3), Markers: mk, Opt: hist.Opt{NextRecovery: pr.next}}), "recover", pr.name, pr.reject)
 				}
